@@ -1,49 +1,73 @@
 (* RenameLemmas.v -- the run-time semantics of a generated program is natural in its identifiers:
    relabelling every identifier of the program, of the machine value and of the names the user's hooks
-   carry in their aborts relabels the outcome and changes nothing else.  A method run never compares
-   identifiers (any relabelling, even a non-injective one); dispatch through the dynamic wrapper compares
-   states, event variants and method names, so it needs the relabelling to be injective and to fix the
-   two literals of the generated code that are not identifiers ("" and "<extracted>"). *)
+   carry in their aborts relabels the outcome and changes nothing else.  The relabelling may differ per
+   namespace (states, events, hooks, enum variants, method names, data fields, accessor names), because
+   the generated names of a renamed definition are re-derived from the new names, not images of the old
+   ones under one function.  A method run never compares identifiers (any relabelling, even a
+   non-injective one); dispatch through the dynamic wrapper compares states, event literals, variants,
+   method names and fields within their namespaces, so it needs those relabellings to be injective, and
+   the state relabelling to fix the two literals of the generated code that are not identifiers
+   ("" and "<extracted>"). *)
 From Coq Require Import String Ascii List Bool Arith Lia.
 From SM Require Import Ident Ast Front Gir Codegen Sem Dyn.
 Import ListNotations.
 Open Scope string_scope.
 Open Scope list_scope.
 
-Section Rename.
-Variable f : ident -> ident.
+(* one relabelling per namespace of the generated program *)
+Record roles := {
+  r_st : ident -> ident;     (* states, superstates, the machine: markers, AnyState variants, state literals *)
+  r_ev : ident -> ident;     (* declared event names (the literals in errors and in Event::name()) *)
+  r_hk : ident -> ident;     (* hook names, and the guard/action names carried by aborts *)
+  r_var : ident -> ident;    (* Event enum variants *)
+  r_mth : ident -> ident;    (* event method names *)
+  r_fld : ident -> ident;    (* data storage fields *)
+  r_acc : ident -> ident }.  (* accessor, setter and conversion method names *)
+Definition uniform (f : ident -> ident) : roles := Build_roles f f f f f f f.
 
-Definition rn_pairs {A} (l : list (ident * A)) : list (ident * A) := map (fun p => (f (fst p), snd p)) l.
-Definition rn_tm (t : tmachine) : tmachine := Build_tmachine (f (tm_state t)) (tm_ctx t) (rn_pairs (tm_slots t)).
+Definition injective (h : ident -> ident) : Prop := forall a b, h a = h b -> a = b.
+
+Section Rename.
+Variable R : roles.
+Local Notation fst_ := (r_st R).
+Local Notation fev := (r_ev R).
+Local Notation fhk := (r_hk R).
+Local Notation fvar := (r_var R).
+Local Notation fmth := (r_mth R).
+Local Notation ffld := (r_fld R).
+Local Notation facc := (r_acc R).
+
+Definition rn_pairs {A} (l : list (ident * A)) : list (ident * A) := map (fun p => (ffld (fst p), snd p)) l.
+Definition rn_tm (t : tmachine) : tmachine := Build_tmachine (fst_ (tm_state t)) (tm_ctx t) (rn_pairs (tm_slots t)).
 Definition rn_akind (k : akind) : akind :=
-  match k with AKGuard n => AKGuard (f n) | AKAction n => AKAction (f n) | AKInvalid => AKInvalid end.
+  match k with AKGuard n => AKGuard (fhk n) | AKAction n => AKAction (fhk n) | AKInvalid => AKInvalid end.
 Definition rn_answer (a : answer) : answer := match a with AAbort k => AAbort (rn_akind k) | x => x end.
 Definition rn_ans (a : ans) : ans := Build_ans (rn_answer (an_val a)) (an_susp a).
 Definition rn_oracle (w : oracle) : oracle := fun i => rn_ans (w i).
 Definition rn_call (c : call) : call :=
-  Build_call (c_kind c) (f (c_name c)) (f (c_state c)) (c_slots c) (c_ctx c) (c_pl c) (c_susp c) (c_done c).
-Definition rn_gerr (e : gerr) : gerr := Build_gerr (f (ge_guard e)) (f (ge_event e)) (rn_akind (ge_kind e)).
+  Build_call (c_kind c) (fhk (c_name c)) (fst_ (c_state c)) (c_slots c) (c_ctx c) (c_pl c) (c_susp c) (c_done c).
+Definition rn_gerr (e : gerr) : gerr := Build_gerr (fhk (ge_guard e)) (fev (ge_event e)) (rn_akind (ge_kind e)).
 Definition rn_tres (r : tres) : tres :=
   match r with
   | ROk m => ROk (rn_tm m)
   | RErr m e => RErr (rn_tm m) (rn_gerr e)
-  | RPanicHook n => RPanicHook (f n)
-  | RPanicAfter n e => RPanicAfter (f n) (f e)
+  | RPanicHook n => RPanicHook (fhk n)
+  | RPanicAfter n e => RPanicAfter (fhk n) (fev e)
   | RAbandoned => RAbandoned
   | RStuck => RStuck
   end.
 Definition rn_stmt (s : stmt) : stmt :=
   match s with
-  | SAroundBefore cb aw ev => SAroundBefore (f cb) aw (f ev)
-  | SCond neg g wpl aw gl el => SCond neg (f g) wpl aw (f gl) (f el)
-  | SBefore cb wpl aw => SBefore (f cb) wpl aw
-  | SConstruct tgt moved inits => SConstruct (f tgt) moved (rn_pairs inits)
-  | SAfter cb wpl aw => SAfter (f cb) wpl aw
-  | SAroundAfter cb aw ev => SAroundAfter (f cb) aw (f ev)
+  | SAroundBefore cb aw ev => SAroundBefore (fhk cb) aw (fev ev)
+  | SCond neg g wpl aw gl el => SCond neg (fhk g) wpl aw (fhk gl) (fev el)
+  | SBefore cb wpl aw => SBefore (fhk cb) wpl aw
+  | SConstruct tgt moved inits => SConstruct (fst_ tgt) moved (rn_pairs inits)
+  | SAfter cb wpl aw => SAfter (fhk cb) wpl aw
+  | SAroundAfter cb aw ev => SAroundAfter (fhk cb) aw (fev ev)
   | SRetOk => SRetOk
   end.
 Definition rn_method (gm : gmethod) : gmethod :=
-  Build_gmethod (f (gm_name gm)) (gm_async gm) (gm_payload gm) (f (gm_target gm)) (map rn_stmt (gm_body gm)).
+  Build_gmethod (fmth (gm_name gm)) (gm_async gm) (gm_payload gm) (fst_ (gm_target gm)) (map rn_stmt (gm_body gm)).
 Definition rn_xst (x : xst) : xst :=
   Build_xst (rn_tm (x_self x)) (option_map rn_tm (x_new x)) (x_i x) (map rn_call (x_tr x)) (x_pend x) (x_budget x).
 Definition rn_cres (c : cres) : cres := match c with CAns a => CAns (rn_answer a) | x => x end.
@@ -53,14 +77,14 @@ Lemma rn_pairs_snd {A} (l : list (ident * A)) : map snd (rn_pairs l) = map snd l
 Proof. unfold rn_pairs. rewrite map_map. reflexivity. Qed.
 
 Lemma mk_call_rn k name on pl susp dn :
-  mk_call k (f name) (rn_tm on) pl susp dn = rn_call (mk_call k name on pl susp dn).
+  mk_call k (fhk name) (rn_tm on) pl susp dn = rn_call (mk_call k name on pl susp dn).
 Proof. unfold mk_call, rn_call, rn_tm. cbn. rewrite rn_pairs_snd. reflexivity. Qed.
 
-Lemma abort_name_rn k cb : abort_name (rn_akind k) (f cb) = f (abort_name k cb).
+Lemma abort_name_rn k cb : abort_name (rn_akind k) (fhk cb) = fhk (abort_name k cb).
 Proof. destruct k; reflexivity. Qed.
 
 Lemma invoke_rn am aw must w x k name on pl :
-  invoke am aw must (rn_oracle w) (rn_xst x) k (f name) (rn_tm on) pl =
+  invoke am aw must (rn_oracle w) (rn_xst x) k (fhk name) (rn_tm on) pl =
   (rn_xst (fst (invoke am aw must w x k name on pl)), rn_cres (snd (invoke am aw must w x k name on pl))).
 Proof.
   unfold invoke, rn_oracle.
@@ -101,7 +125,7 @@ Proof.
     destruct (invoke am aw false w x HBefore cb (x_self x) (pl_if pl wpl)) as [x' c].
     cbn [fst snd]. destruct c as [a| | | |]; cbn [rn_cres]; try reflexivity; apply IH.
   - change (x_self (rn_xst x)) with (rn_tm (x_self x)).
-    replace (Build_tmachine (f tgt) (if moved then tm_ctx (rn_tm (x_self x)) else 0)
+    replace (Build_tmachine (fst_ tgt) (if moved then tm_ctx (rn_tm (x_self x)) else 0)
                (map (fun fi => (fst fi, init_slot (snd fi))) (rn_pairs inits)))
       with (rn_tm (Build_tmachine tgt (if moved then tm_ctx (x_self x) else 0)
                                   (map (fun fi => (fst fi, init_slot (snd fi))) inits))).
@@ -139,49 +163,54 @@ Qed.
 
 Definition rn_derr (e : derr) : derr :=
   match e with
-  | DInvalid a b => DInvalid (f a) (f b)
-  | DGuardFailed a b => DGuardFailed (f a) (f b)
-  | DActionFailed a b => DActionFailed (f a) (f b)
-  | DWrongState a b c => DWrongState (f a) (f b) (f c)
+  | DInvalid a b => DInvalid (fst_ a) (fev b)
+  | DGuardFailed a b => DGuardFailed (fhk a) (fev b)
+  | DActionFailed a b => DActionFailed (fhk a) (fev b)
+  | DWrongState a b c => DWrongState (fst_ a) (fst_ b) (facc c)
   end.
 Definition rn_hres (r : hres) : hres :=
   match r with
   | HErr e => HErr (rn_derr e)
-  | HPanicHook n => HPanicHook (f n)
-  | HPanicAfter n e => HPanicAfter (f n) (f e)
+  | HPanicHook n => HPanicHook (fhk n)
+  | HPanicAfter n e => HPanicAfter (fhk n) (fev e)
   | x => x
   end.
 Definition rn_dyn (d : dyn) : dyn := Build_dyn (option_map rn_tm (d_inner d)).
 Definition rn_hout (o : handle_out) : handle_out :=
   Build_handle_out (rn_dyn (ho_dyn o)) (map rn_call (ho_trace o)) (ho_pend o) (rn_hres (ho_res o)).
 Definition rn_arm (a : garm) : garm :=
-  Build_garm (f (ga_src a)) (f (ga_event a)) (f (ga_variant a)) (ga_binds_pl a) (f (ga_method a)) (ga_aw a)
-             (f (ga_ok a)) (f (ga_restore a)).
+  Build_garm (fst_ (ga_src a)) (fev (ga_event a)) (fvar (ga_variant a)) (ga_binds_pl a) (fmth (ga_method a)) (ga_aw a)
+             (fst_ (ga_ok a)) (fst_ (ga_restore a)).
 Definition rn_acc (a : gacc) : gacc :=
-  Build_gacc (f (gc_state a)) (f (gc_field a)) (f (gc_read a)) (f (gc_write a)) (f (gc_set a)) (map f (gc_variants a)).
+  Build_gacc (fst_ (gc_state a)) (ffld (gc_field a)) (facc (gc_read a)) (facc (gc_write a)) (facc (gc_set a))
+             (map fst_ (gc_variants a)).
 Definition rn_gdyn (gd : gdyn) : gdyn :=
-  Build_gdyn (map (fun v => (f (fst (fst v)), f (snd (fst v)), snd v)) (gd_events gd))
-             (map (fun v => (f (fst v), f (snd v))) (gd_states gd))
-             (f (gd_initial gd)) (map rn_arm (gd_arms gd)) (map rn_acc (gd_accs gd))
-             (map (fun v => (f (fst v), f (snd v))) (gd_into gd)).
+  Build_gdyn (map (fun v => (fvar (fst (fst v)), fev (snd (fst v)), snd v)) (gd_events gd))
+             (map (fun v => (fst_ (fst v), fst_ (snd v))) (gd_states gd))
+             (fst_ (gd_initial gd)) (map rn_arm (gd_arms gd)) (map rn_acc (gd_accs gd))
+             (map (fun v => (facc (fst v), fst_ (snd v))) (gd_into gd)).
 Definition rn_impl (gi : gimpl) : gimpl :=
-  Build_gimpl (f (gi_state gi)) (option_map rn_pairs (gi_new gi)) (map rn_method (gi_methods gi)).
-Definition rn_super (gs : gsuperimpl) : gsuperimpl := Build_gsuperimpl (f (gs_super gs)) (map rn_method (gs_methods gs)).
+  Build_gimpl (fst_ (gi_state gi)) (option_map rn_pairs (gi_new gi)) (map rn_method (gi_methods gi)).
+Definition rn_super (gs : gsuperimpl) : gsuperimpl := Build_gsuperimpl (fst_ (gs_super gs)) (map rn_method (gs_methods gs)).
 Definition rn_gir (g : gir) : gir :=
-  Build_gir (f (gr_name g)) (gr_ctx g) (map f (gr_markers g)) (rn_pairs (gr_fields g)) (map rn_impl (gr_impls g))
-            (map (fun v => (f (fst v), f (snd v))) (gr_storage_accs g))
-            (map (fun v => (f (fst (fst v)), f (snd (fst v)), f (snd v))) (gr_state_accs g))
-            (map (fun v => (f (fst v), f (snd v))) (gr_substate g))
+  Build_gir (fst_ (gr_name g)) (gr_ctx g) (map fst_ (gr_markers g)) (rn_pairs (gr_fields g)) (map rn_impl (gr_impls g))
+            (map (fun v => (facc (fst v), ffld (snd v))) (gr_storage_accs g))
+            (map (fun v => (fst_ (fst (fst v)), facc (snd (fst v)), ffld (snd v))) (gr_state_accs g))
+            (map (fun v => (fst_ (fst v), fst_ (snd v))) (gr_substate g))
             (map rn_super (gr_superimpls g)) (option_map rn_gdyn (gr_dyn g)).
 
-Hypothesis f_inj : forall a b, f a = f b -> a = b.
-Hypothesis f_empty : f "" = "".
-Hypothesis f_extracted : f "<extracted>" = "<extracted>".
+Hypothesis st_inj : injective fst_.
+Hypothesis ev_inj : injective fev.
+Hypothesis var_inj : injective fvar.
+Hypothesis mth_inj : injective fmth.
+Hypothesis fld_inj : injective ffld.
+Hypothesis st_empty : fst_ "" = "".
+Hypothesis st_extracted : fst_ "<extracted>" = "<extracted>".
 
-Lemma eqb_rn a b : String.eqb (f a) (f b) = String.eqb a b.
+Lemma eqb_inj (h : ident -> ident) (Hh : injective h) a b : String.eqb (h a) (h b) = String.eqb a b.
 Proof.
   destruct (String.eqb_spec a b) as [->|N]; [apply String.eqb_refl|].
-  destruct (String.eqb_spec (f a) (f b)) as [E|_]; [|reflexivity]. elim N. apply f_inj. exact E.
+  destruct (String.eqb_spec (h a) (h b)) as [E|_]; [|reflexivity]. elim N. apply Hh. exact E.
 Qed.
 
 Lemma find_map_rn {A B} (h : A -> B) (p : A -> bool) (q : B -> bool) (l : list A) :
@@ -198,66 +227,66 @@ Proof.
   destruct (p x); cbn [map]; rewrite IH; reflexivity.
 Qed.
 
-Lemma mem_rn k l : mem (f k) (map f l) = mem k l.
+Lemma mem_inj (h : ident -> ident) (Hh : injective h) k l : mem (h k) (map h l) = mem k l.
 Proof.
-  unfold mem. induction l as [|x l IH]; [reflexivity|]. cbn [map existsb]. rewrite eqb_rn, IH. reflexivity.
+  unfold mem. induction l as [|x l IH]; [reflexivity|]. cbn [map existsb]. rewrite (eqb_inj h Hh), IH. reflexivity.
 Qed.
 
-Lemma assoc_rn (k : ident) (l : list (ident * ident)) :
-  assoc (f k) (map (fun v => (f (fst v), f (snd v))) l) = option_map f (assoc k l).
+Lemma assoc_inj (h h' : ident -> ident) (Hh : injective h) (k : ident) (l : list (ident * ident)) :
+  assoc (h k) (map (fun v => (h (fst v), h' (snd v))) l) = option_map h' (assoc k l).
 Proof.
-  induction l as [|[a b] l IH]; [reflexivity|]. cbn [map assoc fst snd]. rewrite eqb_rn.
+  induction l as [|[a b] l IH]; [reflexivity|]. cbn [map assoc fst snd]. rewrite (eqb_inj h Hh).
   destruct (String.eqb k a); [reflexivity|exact IH].
 Qed.
 
-Lemma state_lit_rn gd v : state_lit (rn_gdyn gd) (f v) = f (state_lit gd v).
+Lemma state_lit_rn gd v : state_lit (rn_gdyn gd) (fst_ v) = fst_ (state_lit gd v).
 Proof.
-  unfold state_lit. cbn [rn_gdyn gd_states]. rewrite assoc_rn.
-  destruct (assoc v (gd_states gd)); cbn [option_map]; [reflexivity|symmetry; exact f_empty].
+  unfold state_lit. cbn [rn_gdyn gd_states]. rewrite (assoc_inj fst_ fst_ st_inj).
+  destruct (assoc v (gd_states gd)); cbn [option_map]; [reflexivity|symmetry; exact st_empty].
 Qed.
 
 Lemma event_variant_rn gd ev :
-  event_variant (rn_gdyn gd) (f ev) =
-  option_map (fun v => (f (fst (fst v)), f (snd (fst v)), snd v)) (event_variant gd ev).
+  event_variant (rn_gdyn gd) (fev ev) =
+  option_map (fun v => (fvar (fst (fst v)), fev (snd (fst v)), snd v)) (event_variant gd ev).
 Proof.
   unfold event_variant. cbn [rn_gdyn gd_events]. apply find_map_rn.
-  intros [[a b] c]. cbn [fst snd]. apply eqb_rn.
+  intros [[a b] c]. cbn [fst snd]. apply (eqb_inj fev ev_inj).
 Qed.
 
-Lemma find_arm_rn gd s v : find_arm (rn_gdyn gd) (f s) (f v) = option_map rn_arm (find_arm gd s v).
+Lemma find_arm_rn gd s v : find_arm (rn_gdyn gd) (fst_ s) (fvar v) = option_map rn_arm (find_arm gd s v).
 Proof.
   unfold find_arm. cbn [rn_gdyn gd_arms]. apply find_map_rn.
-  intros a. unfold rn_arm. cbn [ga_src ga_variant]. rewrite !eqb_rn. reflexivity.
+  intros a. unfold rn_arm. cbn [ga_src ga_variant]. rewrite (eqb_inj fst_ st_inj), (eqb_inj fvar var_inj). reflexivity.
 Qed.
 
-Lemma impl_of_rn g s : impl_of (rn_gir g) (f s) = option_map rn_impl (impl_of g s).
+Lemma impl_of_rn g s : impl_of (rn_gir g) (fst_ s) = option_map rn_impl (impl_of g s).
 Proof.
   unfold impl_of. cbn [rn_gir gr_impls]. apply find_map_rn.
-  intros gi. cbn [rn_impl gi_state]. apply eqb_rn.
+  intros gi. cbn [rn_impl gi_state]. apply (eqb_inj fst_ st_inj).
 Qed.
 
-Lemma methods_of_rn g s n : methods_of (rn_gir g) (f s) (f n) = map rn_method (methods_of g s n).
+Lemma methods_of_rn g s n : methods_of (rn_gir g) (fst_ s) (fmth n) = map rn_method (methods_of g s n).
 Proof.
   unfold methods_of. rewrite impl_of_rn. destruct (impl_of g s) as [gi|]; cbn [option_map]; [|reflexivity].
-  cbn [rn_impl gi_methods]. apply filter_map_rn. intros gm. cbn [rn_method gm_name]. apply eqb_rn.
+  cbn [rn_impl gi_methods]. apply filter_map_rn. intros gm. cbn [rn_method gm_name]. apply (eqb_inj fmth mth_inj).
 Qed.
 
-Lemma typed_new_rn g s c : typed_new (rn_gir g) (f s) c = option_map rn_tm (typed_new g s c).
+Lemma typed_new_rn g s c : typed_new (rn_gir g) (fst_ s) c = option_map rn_tm (typed_new g s c).
 Proof.
   unfold typed_new. rewrite impl_of_rn. destruct (impl_of g s) as [gi|]; cbn [option_map]; [|reflexivity].
   cbn [rn_impl gi_new]. destruct (gi_new gi) as [inits|]; cbn [option_map]; [|reflexivity].
   unfold rn_tm, rn_pairs. cbn. rewrite !map_map. reflexivity.
 Qed.
 
-Lemma arm_err_rn lit e : arm_err (f lit) (rn_gerr e) = rn_derr (arm_err lit e).
+Lemma arm_err_rn lit e : arm_err (fst_ lit) (rn_gerr e) = rn_derr (arm_err lit e).
 Proof. unfold arm_err, from_guard_error. destruct e as [g ev [n|n|]]; reflexivity. Qed.
 
 Lemma handle_rn g gd d ev pl w b :
-  handle (rn_gir g) (rn_gdyn gd) (rn_dyn d) (f ev) pl (rn_oracle w) b = rn_hout (handle g gd d ev pl w b).
+  handle (rn_gir g) (rn_gdyn gd) (rn_dyn d) (fev ev) pl (rn_oracle w) b = rn_hout (handle g gd d ev pl w b).
 Proof.
   unfold handle. destruct d as [[tm|]]; cbn [rn_dyn d_inner option_map]; [|reflexivity].
   rewrite event_variant_rn. destruct (event_variant gd ev) as [[[variant ev_lit] p]|]; cbn [option_map fst snd]; [|reflexivity].
-  change (tm_state (rn_tm tm)) with (f (tm_state tm)). rewrite find_arm_rn.
+  change (tm_state (rn_tm tm)) with (fst_ (tm_state tm)). rewrite find_arm_rn.
   destruct (find_arm gd (tm_state tm) variant) as [a|]; cbn [option_map].
   2:{ unfold rn_hout. cbn. rewrite state_lit_rn. reflexivity. }
   cbn [rn_arm ga_src ga_method ga_aw ga_binds_pl ga_ok ga_restore]. rewrite methods_of_rn.
@@ -267,9 +296,9 @@ Proof.
   rewrite run_method_rn. cbn [rn_out ro_res ro_trace ro_pend].
   destruct (ro_res (run_method gm tm (if ga_binds_pl a then pl else None) w b)) as [nm|old e|n|n e| |];
     cbn [rn_tres]; try reflexivity.
-  - change (tm_state (rn_tm nm)) with (f (tm_state nm)). rewrite eqb_rn.
+  - change (tm_state (rn_tm nm)) with (fst_ (tm_state nm)). rewrite (eqb_inj fst_ st_inj).
     destruct (String.eqb (tm_state nm) (ga_ok a)); reflexivity.
-  - change (tm_state (rn_tm old)) with (f (tm_state old)). rewrite eqb_rn.
+  - change (tm_state (rn_tm old)) with (fst_ (tm_state old)). rewrite (eqb_inj fst_ st_inj).
     destruct (String.eqb (tm_state old) (ga_restore a)); [|reflexivity].
     unfold rn_hout. cbn. rewrite state_lit_rn, arm_err_rn. reflexivity.
 Qed.
@@ -280,35 +309,35 @@ Proof.
   destruct (typed_new g (gd_initial gd) c); reflexivity.
 Qed.
 
-Lemma current_state_rn gd d : current_state (rn_gdyn gd) (rn_dyn d) = option_map f (current_state gd d).
+Lemma current_state_rn gd d : current_state (rn_gdyn gd) (rn_dyn d) = option_map fst_ (current_state gd d).
 Proof.
   unfold current_state. destruct d as [[tm|]]; cbn [rn_dyn d_inner option_map]; [|reflexivity].
-  change (tm_state (rn_tm tm)) with (f (tm_state tm)). rewrite state_lit_rn. reflexivity.
+  change (tm_state (rn_tm tm)) with (fst_ (tm_state tm)). rewrite state_lit_rn. reflexivity.
 Qed.
 
-Lemma slot_get_rn x s : slot_get (f x) (rn_pairs s) = slot_get x s.
+Lemma slot_get_rn x s : slot_get (ffld x) (rn_pairs s) = slot_get x s.
 Proof.
-  induction s as [|[k v] s IH]; [reflexivity|]. cbn [rn_pairs map slot_get fst snd]. rewrite eqb_rn.
+  induction s as [|[k v] s IH]; [reflexivity|]. cbn [rn_pairs map slot_get fst snd]. rewrite (eqb_inj ffld fld_inj).
   destruct (String.eqb x k); [reflexivity|exact IH].
 Qed.
 
-Lemma slot_set_rn x v s : slot_set (f x) v (rn_pairs s) = rn_pairs (slot_set x v s).
+Lemma slot_set_rn x v s : slot_set (ffld x) v (rn_pairs s) = rn_pairs (slot_set x v s).
 Proof.
-  induction s as [|[k v'] s IH]; [reflexivity|]. cbn [rn_pairs map slot_set fst snd]. rewrite eqb_rn.
+  induction s as [|[k v'] s IH]; [reflexivity|]. cbn [rn_pairs map slot_set fst snd]. rewrite (eqb_inj ffld fld_inj).
   destruct (String.eqb x k); cbn [map fst snd]; [reflexivity|]. f_equal. exact IH.
 Qed.
 
 Lemma acc_read_rn a d : acc_read (rn_acc a) (rn_dyn d) = acc_read a d.
 Proof.
   unfold acc_read. destruct d as [[tm|]]; cbn [rn_dyn d_inner option_map]; [|reflexivity].
-  cbn [rn_acc gc_variants gc_field rn_tm tm_state tm_slots]. rewrite mem_rn, slot_get_rn. reflexivity.
+  cbn [rn_acc gc_variants gc_field rn_tm tm_state tm_slots]. rewrite (mem_inj fst_ st_inj), slot_get_rn. reflexivity.
 Qed.
 
 Lemma acc_write_rn a d v :
   acc_write (rn_acc a) (rn_dyn d) v = (rn_dyn (fst (acc_write a d v)), snd (acc_write a d v)).
 Proof.
   unfold acc_write. destruct d as [[tm|]]; cbn [rn_dyn d_inner option_map]; [|reflexivity].
-  cbn [rn_acc gc_variants gc_field rn_tm tm_state tm_slots tm_ctx]. rewrite mem_rn, slot_get_rn.
+  cbn [rn_acc gc_variants gc_field rn_tm tm_state tm_slots tm_ctx]. rewrite (mem_inj fst_ st_inj), slot_get_rn.
   destruct (mem (tm_state tm) (gc_variants a)); [|reflexivity].
   destruct (slot_get (gc_field a) (tm_slots tm)) as [old|]; [|reflexivity].
   cbn [fst snd]. rewrite slot_set_rn. reflexivity.
@@ -319,31 +348,31 @@ Lemma acc_set_rn gd a d v :
   (rn_dyn (fst (acc_set gd a d v)), option_map rn_derr (snd (acc_set gd a d v))).
 Proof.
   unfold acc_set. destruct d as [[tm|]]; cbn [rn_dyn d_inner option_map].
-  - cbn [rn_acc gc_variants gc_field gc_state gc_set rn_tm tm_state tm_slots tm_ctx]. rewrite mem_rn.
+  - cbn [rn_acc gc_variants gc_field gc_state gc_set rn_tm tm_state tm_slots tm_ctx]. rewrite (mem_inj fst_ st_inj).
     destruct (mem (tm_state tm) (gc_variants a)); cbn [fst snd option_map].
     + rewrite slot_set_rn. reflexivity.
     + rewrite state_lit_rn. reflexivity.
-  - cbn [fst snd option_map rn_derr rn_acc gc_state gc_set]. rewrite f_extracted. reflexivity.
+  - cbn [fst snd option_map rn_derr rn_acc gc_state gc_set]. rewrite st_extracted. reflexivity.
 Qed.
 
 Lemma into_state_rn v d :
-  into_state (f v) (rn_dyn d) =
+  into_state (fst_ v) (rn_dyn d) =
   match into_state v d with inl tm => inl (rn_tm tm) | inr d' => inr (rn_dyn d') end.
 Proof.
   unfold into_state. destruct d as [[tm|]]; cbn [rn_dyn d_inner option_map]; [|reflexivity].
-  change (tm_state (rn_tm tm)) with (f (tm_state tm)). rewrite eqb_rn.
+  change (tm_state (rn_tm tm)) with (fst_ (tm_state tm)). rewrite (eqb_inj fst_ st_inj).
   destruct (String.eqb (tm_state tm) v); reflexivity.
 Qed.
 
 End Rename.
 
-(* a relabelling that meets the three hypotheses and moves every identifier *)
+(* a relabelling that meets the hypotheses and moves every identifier *)
 Definition prefix_z (s : ident) : ident :=
   if String.eqb s "" then s else if String.eqb s "<extracted>" then s else String "z"%char s.
 
-Lemma prefix_z_inj a b : prefix_z a = prefix_z b -> a = b.
+Lemma prefix_z_inj : injective prefix_z.
 Proof.
-  unfold prefix_z.
+  intros a b. unfold prefix_z.
   destruct (String.eqb_spec a "") as [->|Na]; destruct (String.eqb_spec b "") as [->|Nb]; try reflexivity.
   - destruct (String.eqb_spec b "<extracted>") as [->|_]; discriminate.
   - destruct (String.eqb_spec a "<extracted>") as [->|_]; discriminate.
